@@ -495,6 +495,25 @@ func (w *World) extractAxisTable(h *ssa.Function, r *Roles) *AxisTable {
 		if w.axisTableFromMap(h, r, at) {
 			return at
 		}
+	} else {
+		// string comparisons that select no selector (they only set the principal node type, say) next to a table of
+		// selectors: the table is the dispatch
+		anyCall := false
+		for _, c := range cmps {
+			for _, in := range c.ifi.Block().Succs[0].Instrs {
+				if call, ok := in.(*ssa.Call); ok {
+					if sc := staticCallee(call); sc != nil && fnPkgKey(sc) == "exec" {
+						anyCall = true
+					}
+				}
+			}
+		}
+		if !anyCall {
+			at2 := &AxisTable{Handler: h, Arms: map[string]*AxisArm{}}
+			if w.axisTableFromMap(h, r, at2) && len(at2.Arms) > 0 {
+				return at2
+			}
+		}
 	}
 	for _, c := range cmps {
 		body := c.ifi.Block().Succs[0]
